@@ -183,14 +183,17 @@ PROPS = {
         "bridge": RENDER + TABLES,
         "extra_modules": ["Convergen.Props.C04", "Convergen.Props.C16"],
         "sweeps": [sweep_front("mixed", 160, 6000, cats=["body", "slice", "hook", "header", "errflow"], compile=True),
-                   sweep_front("matching", 60, 2000, cats=["body", "slice"], compile=True),
+                   sweep_front("matching", 100, 3000, cats=["body", "slice"], compile=True),
+                   sweep_front("notations", 60, 2000, cats=["body", "slice"], compile=True),
                    sweep_front("slices", 60, 2000, cats=["body", "slice"], compile=True),
                    sweep_front("hooks", 60, 2000, cats=["hook"], compile=True)],
         "rule": FRONT_RULE % "mixed" + "; judge: every emitted file is compiled in its package (go build -gcflags=-e, setup file excluded "
                 "by its tag) and checked with gofmt -l",
         "explanation": "what castNode returns is assignable / a String() of a Stringer where string is assignable / a conversion between "
                        "convertible types (castNode_sound); slice statements only for assignable or (opted-in) convertible elements; "
-                       "the listed exclusions are witnessed as findings; partial: gofmt-cleanliness, import pruning and the printing "
+                       "a converter argument is never a (value, error) call and its address is taken only when it has one "
+                       "(convArg_sound); paths call only parameterless methods that are callable on their operand "
+                       "(walkPath_calls_callable, getter_takes_no_parameters, C04.candidates_callable); partial: gofmt-cleanliness, import pruning and the printing "
                        "of carried-over declarations are go/printer / goimports behaviour, seen by the sweep only",
         "assumptions": ["Go's typing of the emitted fragment is judged by the compiler, not modelled (GoTyping is limited to castNode_sound and the slice decision)"],
     },
